@@ -1,7 +1,8 @@
 /-
   C07 — Validation of untrusted bytes is sound.
   Property theorems only; helper lemmas live in Proofs/Valid*.lean, the models in Osc/Valid.lean
-  (+ Osc/Read.lean), the reference decoder in Osc/Decode.lean.
+  (+ Osc/Read.lean), the reference decoder in Osc/Decode.lean; the decoder is anchored to the
+  OSC 1.0 encoder `Spec.encode` of Osc/Spec.lean (`decode_encode`, `decode_eq_some_iff`).
 
   Reading of the statement.  `bs : Bytes` is an arbitrary byte buffer; the caller owns exactly
   these `n = bs.length` bytes and passes `len = n`.  The model functions return `Res`: `.ok v`,
@@ -13,7 +14,7 @@
   The code is the repaired one (fixes/C07-*.patch): blob length and bundle element size must fit
   the remaining bytes, `len == 0`, empty type string with non-zero padding, empty string argument.
 -/
-import RtoscModel.Proofs.ValidDecode
+import RtoscModel.Proofs.ValidAnchor
 namespace Rtosc.Osc.V
 open Rtosc Rtosc.Osc
 
@@ -184,9 +185,10 @@ def valid_accessors_eq_decode_statement : Prop :=
   ∀ bs : Bytes, Sized bs → Valid bs → ∃ m, Spec.decode bs = some m ∧ ReadersReturn bs m
 
 /-- **valid_accessors_eq_decode_partial** — whenever the validator accepts and the buffer is not
-    in the class of known finding C07-K1 (`NonCanonical`: a decoder that ignores padding content
-    and unknown tags accepts, the strict one does not), the strict OSC 1.0 decoder decodes the
-    buffer and every reader returns exactly what it returns. -/
+    in the class of known finding C07-K1 (`NonCanonical`; by `nonCanonical_iff` below: the buffer
+    is the OSC 1.0 encoding of a message up to padding content, and some padding byte is not NUL
+    or some type tag is not one of the 17), the strict OSC 1.0 decoder decodes the buffer and
+    every reader returns exactly what it returns. -/
 theorem valid_accessors_eq_decode_partial (bs : Bytes) (h : Sized bs) (hv : Valid bs)
     (hk : ¬ NonCanonical bs) : ∃ m, Spec.decode bs = some m ∧ ReadersReturn bs m := by
   obtain ⟨m, hm, hr⟩ := valid_accessors_eq_decodeLax bs h hv
@@ -196,6 +198,65 @@ theorem valid_accessors_eq_decode_partial (bs : Bytes) (h : Sized bs) (hv : Vali
     have := decode_strict_lax hs
     rw [hm] at this; cases this
     exact ⟨m, rfl, hr⟩
+
+/-! ### The reference decoder is anchored to the OSC 1.0 encoder
+
+  "What an independent OSC decoder returns" is only as good as the decoder.  `Spec.decode`
+  (Osc/Decode.lean) is tied to `Spec.encode` (Osc/Spec.lean, the OSC 1.0 encoding C01 is stated
+  against; neither is defined in terms of the other): it is exactly the inverse of the encoder on
+  canonical messages (`Canon`: address starts with '/' and is printable ASCII, the 17 tags, one
+  well-formed argument per payload tag). -/
+
+/-- **decode_encode** — the strict decoder reads back the OSC 1.0 encoding of every well-formed
+    message (C01's `Msg.WF`) whose address is an OSC address. -/
+theorem decode_encode (m : Msg) (h : m.WF) (hs : m.addr.head? = some 47) (hp : m.addr.all printable = true) :
+    Spec.decode (Spec.encode m) = some m :=
+  decode_encode_canon (canon_of_wf h hs hp)
+
+/-- **decode_eq_some_iff** — and conversely: the strict decoder returns `m` for exactly one buffer,
+    the OSC 1.0 encoding of `m`, and only for canonical `m` (for buffers shorter than 2^32 bytes:
+    well-formed in the sense of C01). -/
+theorem decode_eq_some_iff (bs : Bytes) (m : Msg) :
+    Spec.decode bs = some m ↔ Canon m ∧ Spec.encode m = bs :=
+  decode_iff bs m
+
+theorem decode_wf (bs : Bytes) (m : Msg) (h : Spec.decode bs = some m) (hsz : bs.length < 2 ^ 32) :
+    m.WF ∧ m.addr.head? = some 47 ∧ m.addr.all printable = true ∧ Spec.encode m = bs := by
+  obtain ⟨hc, he⟩ := (decode_iff bs m).mp h
+  exact ⟨wf_of_canon hc (by rw [he]; exact hsz), hc.addr_slash, hc.addr_print, he⟩
+
+/-- **nonCanonical_iff** — the trigger class of known finding C07-K1, syntactically: the buffer is
+    the OSC 1.0 encoding of a message `m` *up to the content of bytes that are NUL in that encoding*
+    (`PadEq`: same length, every differing byte is a NUL of the encoding, i.e. padding behind the
+    type tag string / a string argument / blob data — the terminators themselves are NUL in the
+    buffer too, or `m` would be another message), and either some such byte is not NUL in the
+    buffer (`bs ≠ Spec.encode m`) or some type tag is not one of the 17 known ones. -/
+theorem nonCanonical_iff (bs : Bytes) :
+    NonCanonical bs ↔ ∃ m, Spec.decodeLax bs = some m ∧ LaxCanon m ∧ PadEq bs (Spec.encode m) ∧
+      (bs ≠ Spec.encode m ∨ ∃ t ∈ m.tags, isTag t = false) := by
+  unfold NonCanonical
+  constructor
+  · rintro ⟨hl, hs⟩
+    cases hm : Spec.decodeLax bs with
+    | none => rw [hm] at hl; cases hl
+    | some m =>
+      obtain ⟨h1, h2⟩ := decodeLax_padEq hm
+      exact ⟨m, rfl, h1, h2, (decode_none_iff hm).mp hs⟩
+  · rintro ⟨m, hm, _, _, hor⟩
+    exact ⟨by rw [hm]; rfl, (decode_none_iff hm).mpr hor⟩
+
+/-- **valid_accessors_eq_encoding** — the accessor clause without any decoder: whenever the
+    validator accepts, the buffer is the OSC 1.0 encoding of some message `m` up to the content of
+    padding bytes, and argument string, count, types, arguments and iterator return exactly the
+    tags and values of that `m`.  If moreover the padding is clean (`bs = Spec.encode m`) and the
+    tags are known, `m` is what the strict decoder returns. -/
+theorem valid_accessors_eq_encoding (bs : Bytes) (h : Sized bs) (hv : Valid bs) :
+    ∃ m, LaxCanon m ∧ PadEq bs (Spec.encode m) ∧ ReadersReturn bs m ∧
+      (bs = Spec.encode m → m.tags.all isTag = true → Spec.decode bs = some m) := by
+  obtain ⟨m, hm, hr⟩ := valid_accessors_eq_decodeLax bs h hv
+  obtain ⟨h1, h2⟩ := decodeLax_padEq hm
+  refine ⟨m, h1, h2, hr, fun he ht => ?_⟩
+  rw [he]; exact decode_encode_canon ⟨h1, ht⟩
 
 /-- the witness of C07-K1: `/a` `,i` with the padding byte behind the type string's terminator
     set to 1, one int -/
@@ -228,6 +289,21 @@ example : Spec.decode exBytes = some ⟨[47, 97, 98], [91, 115, 98, 93, 105],
     [.str [104, 101, 108, 108, 111], .blob [1, 2, 3], .w32 0x7fffffff]⟩ := by decide +kernel
 example : iterateView exBytes = some [(115, .arg (.str [104, 101, 108, 108, 111])),
     (98, .arg (.blob [1, 2, 3])), (105, .arg (.w32 0x7fffffff))] := by decide +kernel
+/-- the example message is canonical and well-formed: `decode_encode` / `decode_eq_some_iff` are not vacuous -/
+def exMsg : Msg := ⟨[47, 97, 98], [91, 115, 98, 93, 105],
+    [.str [104, 101, 108, 108, 111], .blob [1, 2, 3], .w32 0x7fffffff]⟩
+example : exMsg.WF ∧ exMsg.addr.head? = some 47 ∧ exMsg.addr.all printable = true := by decide +kernel
+example : Canon exMsg := ⟨⟨by decide, by decide, by decide, by decide, by decide⟩, by decide⟩
+example : Spec.encode exMsg = exBytes := by decide +kernel
+/-- the K1 witness differs from the encoding of `/a ,i 5` in one byte, which is NUL in the encoding -/
+example : PadEq k1Witness (Spec.encode ⟨[47, 97], [105], [.w32 5]⟩) ∧ k1Witness ≠ Spec.encode ⟨[47, 97], [105], [.w32 5]⟩ := by
+  refine ⟨?_, by decide +kernel⟩
+  have : Spec.encode ⟨[47, 97], [105], [.w32 5]⟩ = [47, 97, 0, 0, 44, 105, 0, 0, 0, 0, 0, 5] := by decide +kernel
+  rw [this]
+  unfold k1Witness
+  exact .cons (.inl rfl) <| .cons (.inl rfl) <| .cons (.inl rfl) <| .cons (.inl rfl) <| .cons (.inl rfl) <|
+    .cons (.inl rfl) <| .cons (.inl rfl) <| .cons (.inr rfl) <| .cons (.inl rfl) <| .cons (.inl rfl) <|
+    .cons (.inl rfl) <| .cons (.inl rfl) .nil
 /-- the K1 witness is accepted, is in the trigger class, and the lax decoder reads it as `/a ,i 5` -/
 example : Valid k1Witness ∧ NonCanonical k1Witness ∧
     Spec.decodeLax k1Witness = some ⟨[47, 97], [105], [.w32 5]⟩ := by decide +kernel
